@@ -1,5 +1,6 @@
 //! tlsverif: conformance harness binding the TLA+ specification to the compiled crate.
 mod calls;
+mod defrag;
 mod fuzz;
 mod observe;
 mod project;
@@ -35,7 +36,7 @@ pub fn bytes_of(parts: &Value) -> Vec<u8> {
 
 fn out_json(id: &Value, o: &calls::Out, len: usize) -> Value {
     json!({"id": id, "res": o.res, "rem_ok": o.rem_ok, "alloc": o.alloc, "len": len,
-           "fmt_panic": o.fmt_panic, "foreign": o.stats.foreign, "max_end": o.stats.max_end})
+           "fmt_panic": o.fmt_panic.clone().unwrap_or_default(), "foreign": o.stats.foreign, "max_end": o.stats.max_end})
 }
 
 /// run <cases.ndjson> <out.ndjson>: one call per line {id, fn, a, input}
@@ -76,6 +77,9 @@ fn main() {
     let rc = match args[1].as_str() {
         "run" => cmd_run(&args[2..]),
         "fuzz" => fuzz::cmd_fuzz(&args[2..]),
+        "defrag" => defrag::cmd_defrag(&args[2..]),
+        "defrag-fuzz" => defrag::cmd_defrag_fuzz(&args[2..]),
+        "defrag-stream" => defrag::cmd_defrag_stream(&args[2..]),
         _ => {
             eprintln!("unknown command");
             2
